@@ -582,6 +582,10 @@ fn parse_output(v: &serde_json::Value) -> Output {
     Output { result, symbols }
 }
 
+pub fn all_perms_pub(n: usize) -> Vec<Vec<usize>> {
+    all_perms(n)
+}
+
 fn all_perms(n: usize) -> Vec<Vec<usize>> {
     fn rec(cur: &mut Vec<usize>, n: usize, out: &mut Vec<Vec<usize>>) {
         if cur.len() == n {
